@@ -144,7 +144,8 @@ def _calc_cases(clsref, allow_sigma_none=True):
                         u = f.array('u', (m,)) if pot == 'array' else None
                         sigma = f.real('sigma') if sig == 'real' else None
                         old_value = f.array('old_value', (n,))   # whatever an earlier call left behind
-                        self = f.obj(clsref, potential=u, value=old_value, sigma=sigma, apply_hard_core=hc)
+                        # a real closure object (constructor run), then populated the way PRISM.__init__ does
+                        self = f.make(clsref, kwargs=dict(apply_hard_core=hc), potential=u, value=old_value, sigma=sigma, apply_hard_core=hc)
                         return dict(self=self, r=r, gamma=gamma)
                     opts = {'post_body': _core_post} if (hc and pot == 'array' and sig == 'real') else {}
                     if pot == 'array' and sig == 'real':
